@@ -75,6 +75,26 @@ Theorem C08_total : forall r, io_ok (read_all_lines r).
 Proof. exact (read_all_lines_ok decode_utf8_lossy_spec). Qed.
 Print Assumptions C08_total.
 
+(* a faultless delivery never yields an Err: for EVERY chunking (inside the D4
+   class too), every placement of Interrupted, every byte string and encoding
+   the result is a list of lines.  (Before the repair of D6 a UTF-16LE stream
+   ending right after the low byte of a line feed gave Err(UnexpectedEof).) *)
+Theorem C08_faultless_never_fails : forall b s,
+  faultless s -> exists ls, read_all_lines (mk_reader b s) = IoDone ls.
+Proof. exact clean_stream_never_fails. Qed.
+Print Assumptions C08_faultless_never_fails.
+
+(* the reference itself is total *)
+Theorem C08_reference_total : forall b, exists ls, decode_stream b = IoDone ls.
+Proof. exact decode_stream_done. Qed.
+Print Assumptions C08_reference_total.
+
+(* an Err is always a failure event of the schedule *)
+Theorem C08_error_only_from_schedule : forall r k,
+  read_all_lines r = IoErr k -> In (Fail k) (sched r).
+Proof. exact (read_all_lines_err_from_reader decode_utf8_lossy_spec). Qed.
+Print Assumptions C08_error_only_from_schedule.
+
 (* ---------- non-vacuity ---------- *)
 
 Example C08_nonvacuous :
@@ -83,6 +103,16 @@ Example C08_nonvacuous :
   show (read_all_lines (mk_reader d4_bytes [Interrupted; Chunk 3; Chunk 1; Interrupted; Chunk 1; Chunk 200]))
   = show (IoDone [lit "[Metadata]"; lit "Title:abc"]).
 Proof. vm_compute. repeat split. Qed.
+
+(* the former D6 input (UTF-16LE `a` LF cut after the low byte of the line
+   feed): the same line at every chunking outside the D4 class, with
+   Interrupted at the extra-byte read of read_line *)
+Example C08_former_d6_input :
+  show (read_all_lines (mk_reader [255; 254; 97; 0; 10] [])) = show (IoDone [lit "a"]) /\
+  show (read_all_lines (mk_reader [255; 254; 97; 0; 10] [Chunk 3; Chunk 1; Chunk 1])) = show (IoDone [lit "a"]) /\
+  show (read_all_lines (mk_reader [255; 254; 97; 0; 10] [Chunk 4; Chunk 1; Interrupted; Interrupted])) = show (IoDone [lit "a"]) /\
+  show (read_all_lines (mk_reader [255; 254; 97; 0; 10] [Chunk 5; Interrupted])) = show (IoDone [lit "a"]).
+Proof. exact former_d6_input_decodes. Qed.
 
 (* ---------- refutation witness of the full statement (D4) ---------- *)
 
